@@ -1,7 +1,16 @@
 ---- MODULE MCDurability ----
 (* Model-checking instance of Durability: all constants are scalars set in the cfg files.
-   MCDurability_quick / _thorough : all repair flags TRUE (the deviation-free design) - every invariant must hold.
+   MCDurability_quick / _thorough : all repair flags TRUE (the deviation-free design), every record "below" an
+                                    alignment boundary (MaxEdge = 0) - every invariant must hold.
+   MCDurability_len / len*_thorough : the same design with the length classes free: up to MaxEdge records of a
+                                    behaviour sit on / above a 256-byte boundary, at every position of tmp.data and of
+                                    the bitcask file - every invariant must hold.
    MCDurability_code              : all flags FALSE (what the code does)            - negative control.
-   MCDurability_no<Flag>          : one flag FALSE                                  - negative control per finding. *)
+   MCDurability_no<Flag>          : one flag FALSE                                  - negative control per finding.
+   MCDurability_negStride*        : the recovery scan steps (end/256+1)*256 instead of FileUtilsAlign - negative controls
+                                    of the length classes: a record "on" a boundary hides the next one (DurablyClosed,
+                                    StableClosed) and leaves the append offset one slot too far (OffsetAtEnd).
+   MCDurability_negAdvance        : BitCask.Put advances by len/256*256 - negative control: the record after one
+                                    "above" a boundary overwrites its last slot. *)
 EXTENDS Durability
 ====
